@@ -365,19 +365,18 @@ Inductive mode := MExposure | MSeq | MDask.
 Definition mode_eqb (a b : mode) : bool :=
   match a, b with MExposure, MExposure | MSeq, MSeq | MDask, MDask => true | _, _ => false end.
 
-Definition spec_named (T : tables) (m : mode) (rep : list entry) : bool :=
+(* the documented extension of each format keyword in the old to_xxx writers: fixed here, NOT taken
+   from the regenerated tables, so that a changed dispatch is judged against the convention *)
+Definition old_ext_spec (f : fmt) : string :=
+  match f with Hdf => "h5" | Jpeg => "jpg" | _ => fname f end.
+
+Definition spec_named (m : mode) (rep : list entry) : bool :=
   forallb (fun e => match e with
      | (r, b, f, n) =>
          match m with
          | MExposure => String.eqb n (render_new b None f)
          | MDask => String.eqb n (render_new b (Some r) f)
-         | MSeq => match assoc_f f (t_old T) with
-                   | Some w => match assoc_s w (t_old_ext T) with
-                               | Some ext => String.eqb n (render_old b r ext)
-                               | None => false
-                               end
-                   | None => false
-                   end
+         | MSeq => String.eqb n (render_old b r (old_ext_spec f))
          end
      end) rep.
 
@@ -459,7 +458,7 @@ Definition writer_model_ok (T : tables) (c : writer_case) : bool :=
   && Bool.eqb (w_changed c) (w_exists c && negb (match lookup "f" fs' with Some 1%Z => true | _ => false end)).
 
 Definition writer_spec_ok (c : writer_case) : bool :=
-  negb (w_changed c) && (if w_exists c then negb (outcome_eqb (w_out c) Skipped) || true else outcome_eqb (w_out c) Wrote).
+  negb (w_changed c) && (w_exists c || outcome_eqb (w_out c) Wrote).
 
 (* complete flows *)
 Record flow_case := {
@@ -498,7 +497,7 @@ Definition flow_spec_ok (T : tables) (c : flow_case) : bool :=
      | Some _ => true
      | None => spec_attributed (f_rep c) (f_files c)
                && spec_complete (f_req c) (match f_mode c with MExposure => 1 | _ => f_nruns c end) (f_rep c)
-               && spec_named T (f_mode c) (f_rep c)
+               && spec_named (f_mode c) (f_rep c)
      end.
 
 Fixpoint bad_indices {A} (ok : A -> bool) (l : list A) (i : nat) : list nat :=
